@@ -50,6 +50,8 @@ type canCall struct {
 	mode string // park | deaf | quick | drive
 	d    int    // quick: the handler answers after d ms
 	at   int    // the call is issued `at` ms after the scenario (c2s) resp. the carrier's handler (s2c) started
+	grp  bool   // the call's context is ALSO a child of the case's shared group context (errgroup / request scope / common
+	//             deadline): it ends in the instant in which the victim's context ends, with the same error
 }
 
 type canCase struct {
@@ -60,6 +62,8 @@ type canCase struct {
 	when   string // pre run race post
 	tc     int    // the victim's context ends at tc ms (absolute, scenario clock)
 	dl     bool   // … with context.DeadlineExceeded instead of context.Canceled
+	cz     bool   // … by the CancelCauseFunc of a context.WithCancelCause context, with a custom cause (Err is context.Canceled,
+	//               context.Cause — what net/http reports for an interrupted exchange — is the custom error)
 	fault  string // none stall reject fail : what the transport does to the victim side's notifications/cancelled
 	//                 on fj (what the foreign server does with the POST of the notice): none late stall timeout s503 reset
 	rclose bool   // the RECEIVER of the victim's request starts a graceful Close 5 ms before the victim's context ends
@@ -68,7 +72,11 @@ type canCase struct {
 func (c *canCase) cfgOp() string { return fmt.Sprintf("cfg tr=%s pv=%s", c.tr, c.pv) }
 func (c *canCase) callOp(i int) string {
 	k := c.calls[i]
-	return fmt.Sprintf("c %d dir=%s meth=%s mode=%s d=%d at=%d", i, k.dir, k.meth, k.mode, k.d, k.at)
+	op := fmt.Sprintf("c %d dir=%s meth=%s mode=%s d=%d at=%d", i, k.dir, k.meth, k.mode, k.d, k.at)
+	if k.grp {
+		op += " g=1"
+	}
+	return op
 }
 func (c *canCase) cancelOp() string {
 	dl := 0
@@ -76,6 +84,9 @@ func (c *canCase) cancelOp() string {
 		dl = 1
 	}
 	op := fmt.Sprintf("x victim=%d when=%s tc=%d dl=%d fault=%s", c.victim, c.when, c.tc, dl, c.fault)
+	if c.cz {
+		op += " cz=1"
+	}
 	if c.rclose {
 		op += " rc=1"
 	}
@@ -93,6 +104,7 @@ const (
 	canLateMs     = 6000  // the last follow-up: after notifyCancellationTimeout
 	canFollowMs   = 2000  // a follow-up call gives up after this long
 	canStuckMs    = 20000 // a call that has not returned this long after the release is reported as not returned
+	canLateAckMs  = 1000  // fault=late: the Write / POST of the notice is acknowledged this long after it was handed over
 )
 
 type canEv struct {
@@ -113,7 +125,13 @@ type canCtx struct {
 	mu     sync.Mutex
 	err    error
 	dlAt   time.Time
+	// cause != nil: the context is a context.WithCancelCause context (over the VALUES of parent); it is ended by its
+	// CancelCauseFunc with a custom cause
+	inner       context.Context
+	innerCancel context.CancelCauseFunc
 }
+
+var errCanCause = errors.New("verif: the caller gave up (custom cause)")
 
 func (c *canCtx) Deadline() (time.Time, bool) {
 	if !c.dlAt.IsZero() {
@@ -121,13 +139,26 @@ func (c *canCtx) Deadline() (time.Time, bool) {
 	}
 	return c.parent.Deadline()
 }
-func (c *canCtx) Done() <-chan struct{} { return c.done }
+func (c *canCtx) Done() <-chan struct{} {
+	if c.inner != nil {
+		return c.inner.Done()
+	}
+	return c.done
+}
 func (c *canCtx) Err() error {
+	if c.inner != nil {
+		return c.inner.Err()
+	}
 	c.mu.Lock()
 	defer c.mu.Unlock()
 	return c.err
 }
-func (c *canCtx) Value(k any) any { return c.parent.Value(k) }
+func (c *canCtx) Value(k any) any {
+	if c.inner != nil {
+		return c.inner.Value(k) // context.Cause finds the cancelCtx of inner
+	}
+	return c.parent.Value(k)
+}
 
 type canH struct {
 	mu       sync.Mutex
@@ -142,6 +173,7 @@ type canH struct {
 	extra    int
 	returned sync.WaitGroup
 	follow   chan struct{} // closed when the carrier may make its nested follow-up call
+	group    *canCtx       // the shared context of the calls with grp (not a call: ending it is not logged)
 	relAll   chan struct{}
 	wfault   map[string]int // what the fault injection did
 }
@@ -155,17 +187,27 @@ func (h *canH) log(what string, id int, arg string) {
 // newCtx makes the context of call i below parent.
 func (h *canH) newCtx(parent context.Context, i int) *canCtx {
 	c := &canCtx{parent: parent, done: make(chan struct{})}
-	if i == h.c.victim && h.c.dl {
+	member := i == h.c.victim || (i >= 0 && i < len(h.c.calls) && h.c.calls[i].grp)
+	if member && h.c.dl {
 		c.dlAt = h.t0.Add(time.Duration(h.c.tc) * time.Millisecond)
+	}
+	if member && h.c.cz {
+		c.inner, c.innerCancel = context.WithCancelCause(context.WithoutCancel(parent))
 	}
 	h.mu.Lock()
 	h.ctxs[i] = c
 	h.mu.Unlock()
-	if parent.Done() != nil {
+	var grp <-chan struct{}
+	if i >= 0 && i < len(h.c.calls) && h.c.calls[i].grp {
+		grp = h.group.done
+	}
+	if parent.Done() != nil || grp != nil {
 		go func() {
 			select {
 			case <-parent.Done():
 				h.end(i, parent.Err())
+			case <-grp:
+				h.end(i, h.group.Err())
 			case <-c.done:
 			}
 		}()
@@ -191,6 +233,9 @@ func (h *canH) end(i int, err error) {
 		c.err = err
 		c.mu.Unlock()
 		close(c.done)
+		if c.innerCancel != nil {
+			c.innerCancel(errCanCause)
+		}
 	})
 }
 
@@ -527,10 +572,19 @@ type canFaultConn struct {
 
 func (c *canFaultConn) Write(ctx context.Context, msg jsonrpc.Message) error {
 	req, ok := msg.(*jsonrpc.Request)
-	if done, err := canApplyFault(ctx, c.h.faultFor(ok && req.Method == notificationCancelled, c.side)); done {
+	f := c.h.faultFor(ok && req.Method == notificationCancelled, c.side)
+	if done, err := canApplyFault(ctx, f); done {
 		return err
 	}
-	return c.Connection.Write(ctx, msg)
+	err := c.Connection.Write(ctx, msg)
+	if f == "late" && err == nil { // handed over at once, acknowledged late (a slow flush): not a fault
+		select {
+		case <-time.After(canLateAckMs * time.Millisecond):
+		case <-ctx.Done():
+			return ctx.Err()
+		}
+	}
+	return err
 }
 
 // canFaultRT wraps the client's http.RoundTripper: the POST that carries the victim's cancel notice is faulted.
@@ -544,8 +598,21 @@ func (f *canFaultRT) RoundTrip(req *http.Request) (*http.Response, error) {
 		body, _ := io.ReadAll(req.Body)
 		req.Body.Close()
 		req.Body = io.NopCloser(strings.NewReader(string(body)))
-		if done, err := canApplyFault(req.Context(), f.h.faultFor(strings.Contains(string(body), `"`+notificationCancelled+`"`), "client")); done {
+		ft := f.h.faultFor(strings.Contains(string(body), `"`+notificationCancelled+`"`), "client")
+		if done, err := canApplyFault(req.Context(), ft); done {
 			return nil, err
+		}
+		if ft == "late" { // the server processes the POST at once, the client sees the acknowledgement late: not a fault
+			resp, err := f.rt.RoundTrip(req)
+			select {
+			case <-time.After(canLateAckMs * time.Millisecond):
+			case <-req.Context().Done():
+				if err == nil {
+					resp.Body.Close()
+				}
+				return nil, req.Context().Err()
+			}
+			return resp, err
 		}
 	}
 	return f.rt.RoundTrip(req)
@@ -583,7 +650,7 @@ func (b *canForeignBody) Read(p []byte) (int, error) {
 	case <-b.ready:
 		return b.data.Read(p)
 	case <-b.ctx.Done():
-		return 0, b.ctx.Err()
+		return 0, context.Cause(b.ctx) // as net/http: an interrupted body read reports context.Cause of the request's context
 	}
 }
 func (b *canForeignBody) Close() error { return nil }
@@ -662,7 +729,7 @@ func (f *canForeign) RoundTrip(req *http.Request) (*http.Response, error) {
 				close(ch)
 			}
 			if fault == "late" { // processed at once, acknowledged late
-				time.Sleep(time.Second)
+				time.Sleep(canLateAckMs * time.Millisecond)
 			}
 		}
 		return f.resp(req, http.StatusAccepted, "", now("")), nil
@@ -744,6 +811,7 @@ func canRunCase(t *testing.T, out *verifOut, id string, c *canCase) {
 	synctest.Test(t, func(t *testing.T) {
 		h := &canH{t0: time.Now(), c: c, ctxs: map[int]*canCtx{}, release: map[int]chan struct{}{}, finished: map[int]bool{}, hcSeen: map[int]bool{},
 			nbeg: map[int]int{}, follow: make(chan struct{}), wfault: map[string]int{}}
+		h.group = &canCtx{parent: context.Background(), done: make(chan struct{})}
 		for i := range c.calls {
 			h.release[i] = make(chan struct{})
 		}
@@ -868,7 +936,16 @@ func canRunCase(t *testing.T, out *verifOut, id string, c *canCase) {
 			if c.dl {
 				err = context.DeadlineExceeded
 			}
-			h.end(c.victim, err)
+			if c.calls[c.victim].grp { // the shared context ends: the victim's and every other member's context with it
+				h.group.once.Do(func() {
+					h.group.mu.Lock()
+					h.group.err = err
+					h.group.mu.Unlock()
+					close(h.group.done)
+				})
+			} else {
+				h.end(c.victim, err)
+			}
 			time.Sleep(50 * time.Millisecond)
 			synctest.Wait()
 			// follow-up calls while everything else is still parked
@@ -932,6 +1009,12 @@ func canRunCase(t *testing.T, out *verifOut, id string, c *canCase) {
 			recs = append(recs, [3]string{c.callOp(i), "ok", strings.Join([]string{"dir=" + k.dir, k.dir + ":" + k.meth, "mode=" + k.mode, "tr=" + c.tr + "/" + k.dir}, ",")})
 		}
 		vd := c.calls[c.victim].dir
+		ngrp := 1
+		for i, k := range c.calls {
+			if k.grp && i != c.victim {
+				ngrp++
+			}
+		}
 		scope := "peer-cancel-expected"
 		if strings.HasPrefix(c.tr, "sl") && !strings.Contains(c.tr[2:], "p") {
 			scope = "stateless-nocancel" // request and notice are served by different one-shot connections: the clause peerNotCancelled does not apply
@@ -940,7 +1023,8 @@ func canRunCase(t *testing.T, out *verifOut, id string, c *canCase) {
 			scope += ",receiver-closing"
 		}
 		recs = append(recs, [3]string{c.cancelOp(), "ok", strings.Join([]string{scope, "when=" + c.when, "fault=" + c.fault, "victim=" + vd, "tr=" + c.tr + "/" + vd + "/" + c.when,
-			"victim-mode=" + c.calls[c.victim].mode, map[bool]string{true: "deadline", false: "cancel"}[c.dl]}, ",")})
+			"victim-mode=" + c.calls[c.victim].mode, map[bool]string{true: "deadline", false: map[bool]string{true: "cancel-cause", false: "cancel"}[c.cz]}[c.dl],
+			"cancelled-together=" + canBucket(ngrp)}, ",")})
 		for seq, e := range evs {
 			op := fmt.Sprintf("e %d %s %d", seq, e.what, e.id)
 			obs := fmt.Sprintf("t=%d", e.ms)
@@ -1003,6 +1087,66 @@ func canGen(rng *rand.Rand, tr string) *canCase {
 		}
 	}
 	at := func() int { return rng.Intn(4) }
+	if rng.Intn(9) == 0 {
+		// A GROUP of calls sharing one context (errgroup, request scope, common deadline) that ends at once: 2-7 or
+		// 17-32 members (more than any small constant of the code), client→server or nested server→client inside one
+		// carrier, plus bystanders whose contexts do not end.
+		n := 2 + rng.Intn(6)
+		if rng.Intn(2) == 0 {
+			n = 17 + rng.Intn(16)
+		}
+		first := 0
+		if s2c {
+			c.calls = append(c.calls, canCall{dir: "c2s", meth: "drive", mode: "drive"})
+			first = 1
+		}
+		for k := 0; k < n; k++ {
+			m, d := mode()
+			if s2c {
+				c.calls = append(c.calls, canCall{dir: "s2cn", meth: []string{"sample", "elicit", "roots", "ping"}[rng.Intn(4)], mode: m, d: d, at: at(), grp: true})
+			} else {
+				meth := []string{"tool", "tool", "ping"}[rng.Intn(3)]
+				if isNew {
+					meth = "tool"
+				}
+				c.calls = append(c.calls, canCall{dir: "c2s", meth: meth, mode: m, d: d, at: at(), grp: true})
+			}
+		}
+		for k := rng.Intn(3); k > 0; k-- { // bystanders
+			m, d := mode()
+			dir := "c2s"
+			if s2c && rng.Intn(2) == 0 {
+				dir = "s2cn"
+			}
+			meth := "tool"
+			if dir != "c2s" {
+				meth = "roots"
+			}
+			c.calls = append(c.calls, canCall{dir: dir, meth: meth, mode: m, d: d, at: at()})
+		}
+		c.victim = first + rng.Intn(n)
+		v := &c.calls[c.victim]
+		v.mode, v.d = "park", 0
+		switch rng.Intn(8) {
+		case 0, 1:
+			c.dl = true
+		case 2, 3:
+			c.cz = true
+		}
+		c.when = "run"
+		c.tc = 3 + 10 + rng.Intn(20)
+		if s2c {
+			c.tc++
+		}
+		pipe := tr == "mem" || tr == "io"
+		switch {
+		case tr == "fj":
+			c.fault = []string{"none", "late", "late", "stall", "timeout", "s503"}[rng.Intn(6)]
+		case (pipe || !s2c) && !canStateless(tr):
+			c.fault = []string{"none", "late", "late", "stall", "reject"}[rng.Intn(5)]
+		}
+		return c
+	}
 	if s2c {
 		c.calls = append(c.calls, canCall{dir: "c2s", meth: "drive", mode: "drive"})
 		n := 1 + rng.Intn(3)
@@ -1035,7 +1179,12 @@ func canGen(rng *rand.Rand, tr string) *canCase {
 		c.victim = rng.Intn(len(c.calls))
 	}
 	v := &c.calls[c.victim]
-	c.dl = rng.Intn(4) == 0
+	switch rng.Intn(8) {
+	case 0, 1:
+		c.dl = true
+	case 2, 3:
+		c.cz = true
+	}
 	c.when = []string{"pre", "run", "run", "race", "post"}[rng.Intn(5)]
 	if v.mode == "drive" || (c.when == "pre" && canStateless(tr)) {
 		c.when = "run" // a stateless server has no dispatcher shared between two POSTs: nothing can be queued in front of the call
@@ -1077,10 +1226,25 @@ func canGen(rng *rand.Rand, tr string) *canCase {
 		// client's response-header timeout / 503 / connection reset
 		c.fault = []string{"late", "stall", "timeout", "timeout", "s503", "reset"}[rng.Intn(6)]
 	}
+	if c.fault != "none" && tr != "fj" && rng.Intn(4) == 0 {
+		c.fault = "late" // handed over at once, acknowledged a second later: not a fault
+	}
 	if pipe && c.fault == "none" && c.when == "run" && v.mode != "drive" && c.tc > 5 && rng.Intn(5) == 0 {
 		c.rclose = true // the receiver closes gracefully while the call is in flight; only then the caller cancels
 	}
 	return c
+}
+
+func canBucket(n int) string {
+	switch {
+	case n <= 1:
+		return "1"
+	case n <= 4:
+		return "2-4"
+	case n <= 16:
+		return "5-16"
+	}
+	return ">16"
 }
 
 func canParse(lines []string) (*canCase, bool) {
@@ -1104,7 +1268,7 @@ func canParse(lines []string) (*canCase, bool) {
 		case "c":
 			d, _ := strconv.Atoi(kv(f, "d"))
 			at, _ := strconv.Atoi(kv(f, "at"))
-			c.calls = append(c.calls, canCall{dir: kv(f, "dir"), meth: kv(f, "meth"), mode: kv(f, "mode"), d: d, at: at})
+			c.calls = append(c.calls, canCall{dir: kv(f, "dir"), meth: kv(f, "meth"), mode: kv(f, "mode"), d: d, at: at, grp: kv(f, "g") == "1"})
 		case "x":
 			c.victim, _ = strconv.Atoi(kv(f, "victim"))
 			c.when = kv(f, "when")
@@ -1112,6 +1276,7 @@ func canParse(lines []string) (*canCase, bool) {
 			c.dl = kv(f, "dl") == "1"
 			c.fault = kv(f, "fault")
 			c.rclose = kv(f, "rc") == "1"
+			c.cz = kv(f, "cz") == "1"
 		}
 	}
 	return c, c.tr != "" && len(c.calls) > 0 && c.victim >= 0 && c.victim < len(c.calls)
